@@ -213,7 +213,7 @@ def _run_part(cmd, part, timeout, env, label):
             rc, out, err = _run_lines(cmd, part, timeout, env)
         except subprocess.TimeoutExpired:
             rc, out, err = -9, [], "timeout"
-        if rc == 0 and len(out) == len(part):
+        if len(out) == len(part) and (rc == 0 or out[-1].startswith("CRASH timeout")):
             return res + out
         if len(part) == 1:
             reason = (err or "").strip().split("\n")[0][:200] if err else f"exit {rc}"
